@@ -59,6 +59,7 @@ func runC16(l *core.Ledger) {
 	l.Rule("C16-Y3", "decision table over 2^10 option valuations: exactly one client template per accepted method; unique call type; documented forbidden combinations rejected; documented 'Yes' combinations accepted; server streams only with correctable")
 	l.Rule("C16-Y4", "for each call type, the options that influence emitted non-comment text are a subset of the options the documentation matrix marks 'Yes' for it")
 	l.Rule("C16-Y5", "template ↔ runtime agreement: written call-data fields exist in that struct; identifiers named through `use` exist and are exported; template functions are funcMap keys")
+	l.Rule("C16-Y8", "every generated file declares what the static code uses: the static code refers to QuorumSpec without declaring it, the qspec template declares it once per element of qspecServices, so qspecServices hands out every service it is given (one unconditional append per service)")
 	l.Rule("C16-Y6", "reservedIdents ⊇ exported package-level identifiers declared by the static code ∪ {QuorumSpec}; gorumsGuard compares every top-level message name with every reserved name")
 	l.Rule("C16-Y7", "every rejecting path of validateOptions / gorumsGuard reaches log.Fatal*")
 
@@ -73,6 +74,7 @@ func runC16(l *core.Ledger) {
 	c16Y4Y5(l, g, gm, doc)
 	c16Y6(l, g)
 	c16Y7(l, g)
+	c16Y8(l, g)
 	_ = table
 }
 
@@ -339,6 +341,11 @@ func mapRangeIdiom(l *core.Ledger, g *gen.Generator, f genFunc, rs *ast.RangeStm
 			return false, "keys are appended to a slice in map order and the slice is used without being sorted first"
 		}
 		// (b*) filtered and returned unsorted: acceptable only if consumers are order-insensitive - decided by Y3 (unique call type)
+		if f.decl != nil {
+			if bad := orderSensitiveConsumer(g, f); bad != "" {
+				return false, "filtered values are appended in map order and returned unsorted, and " + bad
+			}
+		}
 		return true, "(b*) filtered values appended in map order and returned unsorted: order-insensitive iff at most one element can satisfy its consumer's predicate (decided by C16-Y3 'unique call type')"
 	}
 	// (c) existential search: in-loop returns all return the same constant, no other effect
@@ -1984,43 +1991,254 @@ func callsFatal(info *types.Info, n ast.Node) bool {
 
 func c16Y7(l *core.Ledger, g *gen.Generator) {
 	info := g.Pkg.TypesInfo
-	// every call site of validateOptions: its error is tested and the non-nil branch is fatal
+	// every call site of validateOptions: its error is tested and the non-nil branch is fatal;
+	// and it is reached for every method: directly in the body of the loop over the methods,
+	// with no way round it (continue/break/return) before it
 	n := 0
 	for _, f := range g.Pkg.Syntax {
 		if strings.HasSuffix(l.Prog.Fset.File(f.Pos()).Name(), "_test.go") {
 			continue
 		}
+		var stack []ast.Node
 		ast.Inspect(f, func(nd ast.Node) bool {
-			bl, ok := nd.(*ast.BlockStmt)
+			if nd == nil {
+				stack = stack[:len(stack)-1]
+				return true
+			}
+			stack = append(stack, nd)
+			ce, ok := nd.(*ast.CallExpr)
 			if !ok {
 				return true
 			}
-			for i, st := range bl.List {
-				as, ok := st.(*ast.AssignStmt)
-				if !ok || len(as.Rhs) != 1 {
-					continue
-				}
-				ce, ok := as.Rhs[0].(*ast.CallExpr)
-				if !ok {
-					continue
-				}
-				if fn := resolvedCall(info, ce); fn == nil || fn.Name() != "validateOptions" {
-					continue
-				}
-				n++
-				errObj := objOf(info, as.Lhs[0])
-				ok2 := false
-				if i+1 < len(bl.List) {
-					if ifs, isIf := bl.List[i+1].(*ast.IfStmt); isIf {
-						if be, isBE := ifs.Cond.(*ast.BinaryExpr); isBE && be.Op == token.NEQ && objOf(info, be.X) == errObj && callsFatal(info, ifs.Body) {
-							ok2 = true
+			if fn := resolvedCall(info, ce); fn == nil || fn.Name() != "validateOptions" {
+				return true
+			}
+			// the assignment that receives the error, and the statement it belongs to
+			var as *ast.AssignStmt
+			var ifs *ast.IfStmt
+			var holder ast.Stmt // the statement that sits in a statement list
+			var list []ast.Stmt
+			idx := -1
+			for k := len(stack) - 2; k >= 0; k-- {
+				switch x := stack[k].(type) {
+				case *ast.AssignStmt:
+					if as == nil && len(x.Rhs) == 1 && x.Rhs[0] == ast.Expr(ce) {
+						as = x
+					}
+				case *ast.IfStmt:
+					if as != nil && x.Init == ast.Stmt(as) && ifs == nil {
+						ifs = x
+					}
+				case *ast.BlockStmt:
+					if list == nil {
+						list = x.List
+						for q, st := range x.List {
+							if st == ast.Stmt(as) || (ifs != nil && st == ast.Stmt(ifs)) {
+								idx, holder = q, st
+							}
 						}
 					}
 				}
-				l.Check(ok2, "C16-Y7", "gengorums/validateOptions-call", ce.Pos(), "a validation error is fatal", "the result of validateOptions is not turned into a fatal diagnostic: generation continues with an illegal combination")
+				if list != nil {
+					break
+				}
+			}
+			if as == nil || idx < 0 {
+				// a validator delegating to validateOptions (return validateOptions(m)) is not a use site
+				for k := len(stack) - 2; k >= 0; k-- {
+					if _, isRet := stack[k].(*ast.ReturnStmt); isRet {
+						return true
+					}
+				}
+				n++
+				l.Bad("C16-Y7", "gengorums/validateOptions-call", ce.Pos(), "the result of validateOptions is not kept and tested: generation continues with an illegal combination")
+				return true
+			}
+			n++
+			errObj := objOf(info, as.Lhs[0])
+			isErrTest := func(x *ast.IfStmt) bool {
+				be, isBE := x.Cond.(*ast.BinaryExpr)
+				return isBE && be.Op == token.NEQ && objOf(info, be.X) == errObj && callsFatal(info, x.Body)
+			}
+			ok2 := false
+			if ifs != nil {
+				ok2 = isErrTest(ifs)
+			} else if idx+1 < len(list) {
+				if nx, isIf := list[idx+1].(*ast.IfStmt); isIf {
+					ok2 = isErrTest(nx)
+				}
+			}
+			l.Check(ok2, "C16-Y7", "gengorums/validateOptions-call", ce.Pos(), "a validation error is fatal", "the result of validateOptions is not turned into a fatal diagnostic: generation continues with an illegal combination")
+			// reached for every method
+			var loop *ast.RangeStmt
+			for k := len(stack) - 1; k >= 0; k-- {
+				if r, isR := stack[k].(*ast.RangeStmt); isR {
+					loop = r
+					break
+				}
+			}
+			if loop == nil {
+				return true
+			}
+			direct := false
+			for q, st := range loop.Body.List {
+				if st == holder {
+					direct = true
+					skip := false
+					for _, before := range loop.Body.List[:q] {
+						ast.Inspect(before, func(x ast.Node) bool {
+							switch x.(type) {
+							case *ast.BranchStmt, *ast.ReturnStmt:
+								skip = true
+							case *ast.FuncLit:
+								return false
+							}
+							return true
+						})
+					}
+					l.Check(!skip, "C16-Y7", "gengorums/validateOptions-call/every-method", ce.Pos(), "no way round the validation inside the loop over the methods", "the loop over the methods can move on (continue/break/return) before validateOptions ran for the method: a method with an illegal option combination that the current call type does not select is never validated - it is silently skipped or silently generated")
+				}
+			}
+			if !direct {
+				l.Bad("C16-Y7", "gengorums/validateOptions-call/every-method", ce.Pos(), "validateOptions is called under a condition inside the loop over the methods: methods for which the condition does not hold are never validated")
 			}
 			return true
 		})
 	}
 	l.Floor("C16-Y7", n, 1, "validateOptions call sites")
+}
+
+// orderSensitiveConsumer looks at every call of a function that hands out a
+// slice filled in map order. Ranging over the result (first-match selection,
+// whose predicates Y3 shows to be exclusive) and taking its length do not
+// depend on the order; anything else - indexing, keeping it in a variable,
+// passing it on - does.
+func orderSensitiveConsumer(g *gen.Generator, f genFunc) string {
+	obj := g.Pkg.TypesInfo.Defs[f.decl.Name]
+	if obj == nil {
+		return ""
+	}
+	bad := ""
+	for _, file := range g.Pkg.Syntax {
+		var stack []ast.Node
+		ast.Inspect(file, func(n ast.Node) bool {
+			if n == nil {
+				stack = stack[:len(stack)-1]
+				return true
+			}
+			stack = append(stack, n)
+			ce, ok := n.(*ast.CallExpr)
+			if !ok {
+				return true
+			}
+			id, ok := ce.Fun.(*ast.Ident)
+			if !ok || g.Pkg.TypesInfo.Uses[id] != obj {
+				return true
+			}
+			var parent ast.Node
+			if len(stack) >= 2 {
+				parent = stack[len(stack)-2]
+			}
+			switch p := parent.(type) {
+			case *ast.RangeStmt:
+				if p.X == ast.Expr(ce) {
+					return true
+				}
+			case *ast.CallExpr:
+				if fid, isID := p.Fun.(*ast.Ident); isID && fid.Name == "len" {
+					return true
+				}
+			}
+			bad = "its result is used at " + g.Pkg.Fset.Position(ce.Pos()).String() + " other than by ranging over it or taking its length (an element picked by position is picked in map order)"
+			return true
+		})
+	}
+	return bad
+}
+
+// c16Y8: the QuorumSpec interface is declared by the qspec template inside
+// {{range qspecServices .Services}} and used by the bundled static code in
+// every generated file. A filter in qspecServices leaves a file whose service
+// does not pass it without the declaration: undefined: QuorumSpec.
+func c16Y8(l *core.Ledger, g *gen.Generator) {
+	var fd *ast.FuncDecl
+	for _, f := range g.Pkg.Syntax {
+		for _, d := range f.Decls {
+			if x, ok := d.(*ast.FuncDecl); ok && x.Name.Name == "qspecServices" && x.Recv == nil {
+				fd = x
+			}
+		}
+	}
+	if fd == nil || fd.Body == nil {
+		l.Unknown("C16-Y8", "anchor/qspecServices", token.NoPos, "template function qspecServices not found")
+		return
+	}
+	info := g.Pkg.TypesInfo
+	var outer *ast.RangeStmt
+	for _, st := range fd.Body.List {
+		if r, ok := st.(*ast.RangeStmt); ok && outer == nil {
+			outer = r
+		}
+	}
+	// a body that simply returns its argument also hands out every service
+	if outer == nil {
+		okRet := false
+		if len(fd.Body.List) == 1 {
+			if ret, ok := fd.Body.List[0].(*ast.ReturnStmt); ok && len(ret.Results) == 1 && len(fd.Type.Params.List) == 1 && len(fd.Type.Params.List[0].Names) == 1 {
+				okRet = objOf(info, ret.Results[0]) == info.Defs[fd.Type.Params.List[0].Names[0]]
+			}
+		}
+		l.Check(okRet, "C16-Y8", "gengorums.qspecServices", fd.Pos(), "returns its argument", "qspecServices has no loop over the services and does not return its argument either")
+		return
+	}
+	isAppendOf := func(st ast.Stmt) bool {
+		as, ok := st.(*ast.AssignStmt)
+		if !ok || len(as.Rhs) != 1 {
+			return false
+		}
+		ce, ok := as.Rhs[0].(*ast.CallExpr)
+		if !ok {
+			return false
+		}
+		id, ok := ce.Fun.(*ast.Ident)
+		if !ok || id.Name != "append" || len(ce.Args) != 2 {
+			return false
+		}
+		return outer.Value != nil && objOf(info, ce.Args[1]) == objOf(info, outer.Value)
+	}
+	ok, why := false, "no statement of the loop body appends the service unconditionally"
+	for q, st := range outer.Body.List {
+		if !isAppendOf(st) {
+			continue
+		}
+		ok, why = true, ""
+		for _, before := range outer.Body.List[:q] {
+			ast.Inspect(before, func(x ast.Node) bool {
+				switch y := x.(type) {
+				case *ast.RangeStmt, *ast.ForStmt, *ast.FuncLit, *ast.SwitchStmt, *ast.SelectStmt:
+					// an unlabelled continue/break in there stays in there
+					labelled := false
+					ast.Inspect(y, func(z ast.Node) bool {
+						if b, isB := z.(*ast.BranchStmt); isB && b.Label != nil {
+							labelled = true
+						}
+						if _, isRet := z.(*ast.ReturnStmt); isRet {
+							if _, isLit := y.(*ast.FuncLit); !isLit {
+								labelled = true
+							}
+						}
+						return true
+					})
+					if labelled {
+						ok, why = false, "a labelled jump or return before the append can skip it"
+					}
+					return false
+				case *ast.BranchStmt, *ast.ReturnStmt:
+					ok, why = false, "a continue/break/return before the append can skip it"
+				}
+				return true
+			})
+		}
+	}
+	l.Check(ok, "C16-Y8", "gengorums.qspecServices", fd.Pos(), "every service is handed to the qspec template", "qspecServices filters the services ("+why+"): for a file whose service does not pass the filter (for instance a service of plain rpc methods) the qspec template declares no QuorumSpec, while the static code in the same file refers to it - the plugin exits 0 and its output does not compile")
 }
